@@ -245,6 +245,7 @@ where
                     let mut runner = TestRunner::new(config);
                     let agg = std::cell::RefCell::new(Agg::default());
                     let failed = std::cell::Cell::new(false);
+                    let failures: std::cell::RefCell<std::collections::HashMap<u64, Failure>> = Default::default();
                     let strat = strategy();
                     let res = runner.run(&strat, |case| {
                         if stop.load(Ordering::Relaxed) && !failed.get() {
@@ -266,7 +267,11 @@ where
                                     agg.borrow_mut().evaluations += 1;
                                     stop.store(true, Ordering::Relaxed);
                                 }
-                                Err(TestCaseError::fail(format!("{}: expected {} actual {}", f.obs, f.expected, f.actual)))
+                                let reason = format!("{}: expected {} actual {}", f.obs, f.expected, f.actual);
+                                // remember the structured failure of this very case (timing dependent
+                                // engines may not fail again when the shrunk case is re-run)
+                                failures.borrow_mut().insert(hash_json(&case), f);
+                                Err(TestCaseError::fail(reason))
                             }
                         }
                     });
@@ -274,10 +279,14 @@ where
                     if let Err(e) = res {
                         match e {
                             TestError::Fail(_, case) => {
-                                // re-run the minimal case to obtain the structured failure
-                                let failure = match guarded(|| test(&case)) {
-                                    Err(f) => f,
-                                    Ok(_) => Failure::new("flaky", "failure to reproduce on the shrunk case", "passed"),
+                                // the structured failure recorded when this minimal case failed
+                                let recorded = failures.borrow_mut().remove(&hash_json(&case));
+                                let failure = match recorded {
+                                    Some(f) => f,
+                                    None => match guarded(|| test(&case)) {
+                                        Err(f) => f,
+                                        Ok(_) => Failure::new("flaky", "failure to reproduce on the shrunk case", "passed"),
+                                    },
                                 };
                                 let mut v = violation.lock().expect("lock");
                                 if v.as_ref().map(|(w, _)| *w > wi).unwrap_or(true) {
